@@ -132,6 +132,18 @@ theorem firstMin_map {β : Type} [LinearOrder β] [instβ : DecidableLE β] (f :
 
 end FirstMin
 
+/-! ### `List.ofFn` (the clocks of the probability theorems as a list) -/
+
+theorem ofFn_get {α : Type} {n : Nat} (f : Fin n → α) (j : Fin n) : (List.ofFn f)[j.val]? = some (f j) := by
+  simp [List.getElem?_ofFn]
+
+theorem ofFn_get_some {α : Type} {n : Nat} (f : Fin n → α) (j : Nat) (b : α) (h : (List.ofFn f)[j]? = some b) :
+    ∃ hj : j < n, b = f ⟨j, hj⟩ := by
+  simp only [List.getElem?_ofFn] at h
+  split at h
+  · rename_i hj; exact ⟨hj, by simpa using h.symm⟩
+  · simp at h
+
 /-! ### the first-reaction model computes `firstMin` of its draws -/
 
 /-- on clocks that are all finite `argminOpt` is `firstMin` -/
